@@ -6,31 +6,33 @@ BIN=/verif/_build/bin/effgen
 S=/tmp/effmut
 rm -rf /tmp/effrepo $S
 
+VERDICTS="EffectsVerdictPure EffectsVerdictState EffectsVerdictConc EffectsVerdictRecv"
+
 diag() { # $1 = label
   mkdir -p $S/coq/Gen $S/coq/Model $S/coq/Proofs
   cp /verif/coq/Model/Effects.v $S/coq/Model/
-  cp /verif/coq/Proofs/EffectsVerdict.v /verif/coq/Proofs/EffectsProofs.v $S/coq/Proofs/
+  cp /verif/coq/Proofs/EffectsProofs.v /verif/coq/Proofs/EffectsDocumented.v $S/coq/Proofs/
+  for v in $VERDICTS; do cp /verif/coq/Proofs/$v.v $S/coq/Proofs/; done
   $BIN /tmp/effrepo $S >/dev/null || { echo "$1: effgen failed"; return; }
   cat > $S/coq/Diag.v <<'EOF'
 From Coq Require Import String List Bool.
 Import ListNotations.
-From Verif Require Import Model.Effects Gen.EffectsIR.
+From Verif Require Import Model.Effects Gen.EffectsIR Proofs.EffectsDocumented.
 Open Scope string_scope.
-Load "verdict_defs".
 Eval vm_compute in ("all_exported_pure", forallb (pure_fn funcs documented) exported_names).
 Eval vm_compute in ("impure", filter (fun f => negb (pure_fn funcs documented f)) exported_names).
 Eval vm_compute in ("no_global_state", no_global_state funcs all_names init_names).
 Eval vm_compute in ("c19", map (fun f => (f, receiver_stored funcs recv_fields f)) c19_methods).
 EOF
-  # the definitions (not the lemmas) of EffectsVerdict.v
-  sed -n '/^Definition documented/,/^Lemma all_exported_pure/p' $S/coq/Proofs/EffectsVerdict.v \
-    | grep -v '^Lemma' > $S/coq/verdict_defs.v
   ( cd $S/coq && timeout 600 coqc -Q . Verif Model/Effects.v \
     && timeout 600 coqc -Q . Verif Gen/EffectsIR.v \
     && timeout 600 coqc -Q . Verif Proofs/EffectsProofs.v >/dev/null \
+    && timeout 600 coqc -Q . Verif Proofs/EffectsDocumented.v \
     && echo "== $1" && timeout 600 coqc -Q . Verif Diag.v 2>&1 | tr '\n' ' ' | sed 's/ = /\n = /g; s/  */ /g'; echo
-    echo -n "   EffectsVerdict.v: "
-    if timeout 600 coqc -Q . Verif Proofs/EffectsVerdict.v >/dev/null 2>$S/err.txt; then echo "COMPILES"; else echo "FAILS: $(grep -m1 -B2 -i 'error' $S/err.txt | head -1)"; fi )
+    echo -n "   verdict files:"
+    for v in $VERDICTS; do
+      if timeout 600 coqc -Q . Verif Proofs/$v.v >/dev/null 2>$S/err.txt; then echo -n " $v=COMPILES"; else echo -n " $v=FAILS"; fi
+    done; echo )
 }
 
 fresh() { rm -rf /tmp/effrepo; cp -r /repo /tmp/effrepo; }
@@ -98,5 +100,24 @@ diag "(ix) PointFromSignAndY: p.Y.Mod(...) where p.Y aliases parameter y"
 
 fresh; mutate /tmp/effrepo/mimc7/mimc7.go '		r = new(big.Int).Mod(r, _constants.Q)' '		r = r.Mod(r, _constants.Q)'
 diag "(x) mimc7.Hash: r.Mod(r, Q) in place, r may alias key"
+
+fresh; mutate /tmp/effrepo/ff/element.go '	vv.Set(v)
+	vv.Mod(v, &_modulus)
+
+	// set big int byte value
+	z.setBigInt(vv)' '	v.Mod(v, &_modulus)
+	vv.Set(v)
+
+	// set big int byte value
+	z.setBigInt(vv)'
+diag "(xi) ff.Element.SetBigInt: v.Mod(v, &_modulus) mutates the argument"
+
+fresh; mutate /tmp/effrepo/ffg/element.go 'func (z *Element) Mul(x, y *Element) *Element {
+	mul(z, x, y)' 'var scratch Element
+
+func (z *Element) Mul(x, y *Element) *Element {
+	scratch = *x
+	mul(z, &scratch, y)'
+diag "(xii) ffg.Element.Mul: package-level scratch Element written"
 
 rm -rf /tmp/effrepo $S
